@@ -30,6 +30,8 @@ R_2x2N == [1..2 -> V2N]
 R_none == {}
 R_q4   == {<<S(97)>>, <<S(97), S(97)>>, <<S(97), S(98)>>, <<S(98), S(97)>>}     \* quick tier: 4 records incl. a short one
 
+Agg(f, e) == <<"agg", f, e>>
+
 \* ---------------------------------------------------------------- C01: select / where
 WhereSet == {TRUEx, <<"eq", Fa(1), L(97)>>, <<"nrodd">>, Fa(2)}      \* Fa(2): truthiness of a bare field (None / "" are falsy)
 
@@ -127,6 +129,24 @@ Q_C14 == {[BaseQ EXCEPT !.items = <<E(P(Fa(1))), E(NRx)>>],
           [BaseQ EXCEPT !.items = <<E(<<"cat", Fa(1), Fa(3)>>)>>, !.where = <<"eq", Fa(1), L(112)>>],
           [BaseQ EXCEPT !.items = <<E(P(Fa(1)))>>, !.hastop = TRUE, !.top = 1],
           [BaseQ EXCEPT !.items = <<E(Fa(1)), <<"unnest", <<"rep", P(Fa(2))>>>> >>]}
+\* for ragged tables: no sort key / numeric aggregate over a field that may be absent (None keys raise inside sorted(): I2)
+Q_C14rag == {qq \in Q_C14 : (\A k \in 1..Len(qq.order) : qq.order[k] # Fa(2) /\ qq.order[k] # P(Fa(2))) /\ (\A k \in 1..Len(qq.items) : qq.items[k][1] # "agg" \/ qq.items[k][2] # "MAX")}
+Q_C14text == {[BaseQ EXCEPT !.items = <<E(Fa(1))>>, !.where = <<"eq", Fa(1), L(97)>>, !.mistake = "where_assign"],
+              [BaseQ EXCEPT !.items = <<E(Fa(1))>>, !.mistake = "two_selects"],
+              [BaseQ EXCEPT !.items = <<E(Fa(1))>>, !.hastop = TRUE, !.top = 1, !.mistake = "bad_limit"],
+              [BaseQ EXCEPT !.hasexc = TRUE, !.exc = <<1>>, !.mistake = "unknown_except_field"],
+              [BaseQ EXCEPT !.kind = "update", !.assign = << <<1, L(120)>> >>, !.mistake = "unknown_update_field"],
+              [BaseQ EXCEPT !.kind = "update", !.assign = << <<1, L(120)>> >>, !.order = <<Fa(1)>>],
+              [BaseQ EXCEPT !.items = <<E(Fa(1)), <<"unnest", <<"flds", <<1, 2>>>>>>, <<"unnest", <<"flds", <<2, 1>>>>>> >>],
+              [BaseQ EXCEPT !.items = <<E(Fa(1)), <<"unnest", <<"flds", <<1, 2>>>>>>, <<"unnest", <<"flds", <<2, 1>>>>>> >>, !.where = <<"eq", Fa(1), L(112)>>],
+              [BaseQ EXCEPT !.items = <<Agg("COUNT", <<"int", 1>>)>>, !.order = <<Fa(1)>>],
+              [BaseQ EXCEPT !.items = <<Agg("MAX", Fa(2))>>, !.distinct = "uniq", !.where = <<"eq", Fa(1), L(112)>>],
+              [BaseQ EXCEPT !.items = <<Agg("COUNT", <<"int", 1>>), E(Fa(1))>>, !.hasgroup = TRUE, !.group = <<Fa(1)>>, !.order = <<Fa(1)>>],
+              [BaseQ EXCEPT !.items = <<E(Fa(1)), <<"as", E(Fa(2)), "zz">>, <<"star">> >>],
+              [BaseQ EXCEPT !.items = <<E(Fa(1))>>, !.iofault = "hdr_len"],
+              [BaseQ EXCEPT !.items = <<E(Fa(1))>>]}
+Q_C14textjoin == {[BaseQ EXCEPT !.hasexc = TRUE, !.exc = <<1>>, !.join = "inner", !.jkeys = << <<1, 1>> >>],
+                  [BaseQ EXCEPT !.items = <<E(Fa(1))>>, !.join = "inner", !.jkeys = << <<1, 1>> >>, !.iofault = "join_hdr_missing"]}
 Q_C14join == {[BaseQ EXCEPT !.items = <<E(Fa(1)), E(Fb(1))>>, !.join = j, !.jkeys = ks, !.where = w] :
                 j \in {"inner", "left", "strict"}, ks \in {<< <<1, 1>> >>, << <<2, 1>> >>, << <<1, 2>> >>, << <<1, 1>>, <<3, 2>> >>},
                 w \in {TRUEx, <<"eq", P(Fb(1)), L(97)>>}}
@@ -136,7 +156,6 @@ D(c)  == Str(<<c>>)                   \* one-digit numeric strings "1".."3"
 N15   == Str(<<49, 46, 53>>)          \* "1.5"
 Nums  == {D(49), D(50), D(51), N15}
 R_num == {<<k, v>> : k \in V2, v \in Nums}       \* key column, numeric column
-Agg(f, e) == <<"agg", f, e>>
 AggFs == {"COUNT", "MIN", "MAX", "SUM", "AVG", "VARIANCE", "MEDIAN", "ARRAY_AGG", "ANY_VALUE"}
 ItemsAgg == {Agg(f, Fa(2)) : f \in AggFs} \cup {Agg("COUNT", <<"int", 1>>), Agg("SUM", <<"mul", <<"num", Fa(2)>>, <<"int", 2>> >>), E(Fa(1)), E(L(120)), E(Fa(2))}
 Q_C03 == {[BaseQ EXCEPT !.items = its, !.hasgroup = g # <<>>, !.group = g, !.where = w, !.hastop = ht, !.top = 1] :
